@@ -280,3 +280,25 @@ Proof.
   vm_compute. repeat split; reflexivity.
 Qed.
 Print Assumptions labs_F_agrees_with_mahalanobis_refuted.
+
+(* ================================================================== fdr_threshold *)
+From NV.C06 Require Import ProofsTh.
+Open Scope Q_scope.
+(* (F7) fdr_threshold returns alpha/n when no sorted p-value lies strictly below
+   its step-up line alpha*(k+1)/n; otherwise it returns a critical p-value that
+   is >= every critical p-value (the Benjamini-Hochberg rejection threshold). *)
+Theorem fdr_threshold_spec :
+  forall p alpha T, fdr_threshold p alpha = Some T ->
+  let sp := gather p (argsort_q p) in
+  let pc := alpha / qnat (List.length p) in
+  sorts (argsort_q p) p /\
+  ((forall k, ~ critical pc sp k) -> T = pc) /\
+  ((exists k, critical pc sp k) ->
+     (exists k, critical pc sp k /\ T = nth k sp 0) /\
+     (forall k, critical pc sp k -> nth k sp 0 <= T)).
+Proof.
+  intros p alpha T H. unfold fdr_threshold in H. destruct (check_p p); [|discriminate].
+  injection H as <-. cbv zeta. split; [apply argsort_q_sorts|].
+  exact (fdr_threshold_with_spec (argsort_q p) p alpha).
+Qed.
+Print Assumptions fdr_threshold_spec.
